@@ -29,6 +29,9 @@
 (*   ElideDelParent   explicit delete equal to the enclosing entry dropped  *)
 (*   ElideNewDefault  explicit allow_new = True dropped (`!notnew{x: !new}`)*)
 (*   ElideSafeDefault explicit safe equal to the source's default dropped   *)
+(*   ElideSafeParent  explicit safe equal to the enclosing entry dropped    *)
+(*   PlainTagNotPushed a flag written as a plain tag is not pushed: the      *)
+(*                    children are compared with an OUTER container's entry *)
 (*   SafeTagTrue      a lone safe=True is written as `!safe` (unparsable)   *)
 (*   NullDropsFlags   None is written as bare `!null`: flags + metadata lost*)
 (*   ClearNoValue     dumping a !clear node raises AttributeError           *)
@@ -39,8 +42,8 @@
 (***************************************************************************)
 EXTENDS AyMerge
 
-AllDeviations == {"ElideDelDefault", "ElideDelParent", "ElideNewDefault", "ElideSafeDefault", "SafeTagTrue",
-                  "NullDropsFlags", "ClearNoValue", "PathNoRefWraps", "ReprQuoting"}
+AllDeviations == {"ElideDelDefault", "ElideDelParent", "ElideNewDefault", "ElideSafeDefault", "ElideSafeParent",
+                  "PlainTagNotPushed", "SafeTagTrue", "NullDropsFlags", "ClearNoValue", "PathNoRefWraps", "ReprQuoting"}
 
 NullAtom == <<"n", "">>
 IsNullNode(n) == n.k = "scalar" /\ n.v = NullAtom
@@ -79,9 +82,14 @@ KeepNew(n, st, dev) ==
     ELSE IF "ElideNewDefault" \in dev /\ n.anew = "T" THEN "N"
     ELSE n.anew
 
-\* safe: the type default is the INSTANCE attribute _default_safe (node.py:387)
+\* safe.  Intended: always written.  (An explicit safe stops the propagation
+\* of inherited safety at this node, composed.py:396-401, and is and-ed into
+\* whatever later replaces the node, node.py:440-441,463-464: an explicit
+\* False is not the same as an inherited False.)  The type default is the
+\* INSTANCE attribute _default_safe (node.py:387).
 KeepSafe(n, st, dev) ==
-    IF n.safe = "N" \/ n.safe = st.safe THEN "N"
+    IF n.safe = "N" THEN "N"
+    ELSE IF "ElideSafeParent" \in dev /\ n.safe = st.safe THEN "N"
     ELSE IF "ElideSafeDefault" \in dev /\ n.safe = n.dsafe THEN "N"
     ELSE n.safe
 
@@ -93,8 +101,6 @@ Overlay(st, r) == [pr   |-> IF r.pr # PrNone THEN r.pr ELSE st.pr,
                    del  |-> IF r.del # "N" THEN r.del ELSE st.del,
                    anew |-> IF r.anew # "N" THEN r.anew ELSE st.anew,
                    safe |-> IF r.safe # "N" THEN r.safe ELSE st.safe]
-
-RawFlags(n) == [pr |-> n.pr, del |-> n.del, anew |-> n.anew, safe |-> n.safe]
 
 \* yaml.py:626-628: repr() of a string re-read by YAML's single-quoted rules.
 \* Strings are opaque to TLC; the universes hold ONE string with a backslash.
@@ -118,9 +124,11 @@ DumpNode(n, st, dev) ==
         \* yaml.py:577-585
         plain == /\ ~HasKindTag(n) /\ cnt = 1 /\ NFlags(r0) = 1
                  /\ (r0.safe = "T" => "SafeTagTrue" \in dev)
-        \* yaml.py:593-596 (a flag turned into a plain tag has left `metadata`)
-        push  == IF Mut("StackBeforeElision") THEN Overlay(st, RawFlags(n))
-                 ELSE IF plain /\ ~Mut("PlainTagPushed") THEN st ELSE Overlay(st, r0)
+        \* yaml.py:593-596.  Intended: what this node has written, in either form,
+        \* is what its children may leave out.  As the code is, a flag turned
+        \* into a plain tag has left `metadata` before the push: the children
+        \* are compared with whatever an outer container pushed.
+        push  == IF plain /\ "PlainTagNotPushed" \in dev THEN st ELSE Overlay(st, r0)
         kids  == [i \in 1..Len(n.ch) |-> <<n.ch[i][1], DumpNode(n.ch[i][2], push, dev)>>]
         drop  == IsNullNode(n) /\ "NullDropsFlags" \in dev          \* yaml.py:621-624
         r     == IF drop THEN Stack0 ELSE r0
@@ -143,6 +151,10 @@ DumpNode(n, st, dev) ==
        ELSE SDRec(n.k, v, kids, n.fn, n.ref, form, r, md)
 
 Dump(t, dev) == DumpNode(t, Stack0, dev)
+
+\* the deviations that act on t: taking one away changes what is written, or
+\* adding it alone to the intended design does
+Fired(t, asis) == {d \in asis : Dump(t, asis \ {d}) # Dump(t, asis) \/ Dump(t, {d}) # Dump(t, {})}
 
 RECURSIVE DumpFails(_), Unparsable(_)
 DumpFails(sd)  == sd.k = "DUMPERR" \/ \E i \in 1..Len(sd.ch) : DumpFails(sd.ch[i][2])
